@@ -245,11 +245,20 @@ func runCaseByIndex(prop, tier string, seed uint64, idx int, keepDir string) *Ca
 	sc := finalScenario(prop, seed, idx)
 	res := runScenario(sc, sp.monitors(), keepDir)
 	res.Sample = scenarioSample(sc)
+	if res.Cov == nil {
+		res.Cov = map[string]int64{}
+	}
 	if sc.TillCollision {
-		if res.Cov == nil {
-			res.Cov = map[string]int64{}
-		}
 		res.Cov["cases_postponed_tillage_meets_the_next_one"]++
+	}
+	if sc.FileExt != "" {
+		res.Cov["cases_with_fileExtension_argument"]++
+	}
+	if sc.GWId != "" {
+		res.Cov["cases_with_gwId_argument"]++
+	}
+	if sc.PermanentAfterAnnual {
+		res.Cov["cases_permanent_crop_after_annual_crops"]++
 	}
 	return res
 }
